@@ -65,9 +65,13 @@ theorem c19_src_decimals :
   | exact Or.inl (by decide)
   | exact Or.inr ⟨by decide, by decide, by decide, by decide, fun v => decimalsCapped_le v⟩
 
-/-- non-vacuity: recovered on this tree; the member is one of the two of the family; 0.29 through the recovered
+/-- non-vacuity (where recovered — the translator note in the evidence of every run says `known true` or why not; a
+    refactoring the generator cannot follow must make these theorems vacuous, not break them): the member is one of the two of the family; 0.29 through the recovered
     product is the double 28.999999999999996 -/
-example : known = true ∧ (srcCfg = .repaired ∨ srcCfg = .asWritten) ∧
-    evalF ⟨parseDec 29 2, 0, 0, 2⟩ product = some ⟨false, 8162774324609023, -48⟩ := by decide +kernel
+example : known = false ∨ ((srcCfg = .repaired ∨ srcCfg = .asWritten) ∧
+    evalF ⟨parseDec 29 2, 0, 0, 2⟩ product = some ⟨false, 8162774324609023, -48⟩) := by
+  first
+  | exact Or.inl (by decide)
+  | exact Or.inr (by decide +kernel)
 
 end Spine.Props.C19Scaled
